@@ -141,6 +141,39 @@ def main(n: int, m: int, b: bool):
         init.fill([filled.vacate(spec.get_static_trap(zone_id="B"), [(k, 0)])])
     measure.measure((t,))
     return c
+''', '''
+@move
+def main(n: int, m: int, b: bool):
+    view = spec.get_static_trap(zone_id="A")[0:2, 0:2]
+    zone = view
+    if b:
+        zone = filled.vacate(view, [(1, 1)])
+    gate.local_rz(0.5, zone)
+    return n
+''']
+F24_TEMPLATE = 2     # the view-vs-filled-view program (known finding F24)
+FILLED_SRCS += ['''
+@move
+def main(n: int, m: int, b: bool):
+    view = spec.get_static_trap(zone_id="A")[0:2, 0:2]
+    f = filled.vacate(view, [(1, 1)])
+    gate.local_rz(0.5, view)
+    gate.local_rz(0.25, f)
+    init.fill([f, view])
+    return n
+''', '''
+@move
+def count(zone: grid.Grid[Literal[3], Literal[2]]):
+    return len(grid.get_xpos(filled.fill(zone, [(0, 0)]))) + 2 * len(grid.get_ypos(filled.vacate(zone, [(0, 0)])))
+
+@move
+def main(n: int, m: int, b: bool):
+    k = count(spec.get_static_trap(zone_id="A"))
+    c = 0
+    for i in range(k):
+        c = c + 1
+        gate.global_rz(0.5)
+    return c
 ''']
 
 
@@ -162,7 +195,7 @@ def filled_worker(task):
     fold, aggr, tinf, verify, with_spec, unroll, rerun = route
     C06.SPEC_SLOT = SPEC
     opts = f"fold={fold}, aggressive={aggr}, typeinfer={tinf}, verify={verify}" + (", arch_spec=_C06.SPEC_SLOT" if with_spec else "")
-    hdr = L.HDR.replace("from bloqade.shuttle import action, gate, init, measure, schedule, spec",
+    hdr = "from typing import Literal\n" + L.HDR.replace("from bloqade.shuttle import action, gate, init, measure, schedule, spec",
                         "from bloqade.shuttle import action, filled, gate, init, measure, schedule, spec") + "from harness.props import c06 as _C06\n"
     s = hdr + src.replace("@move\ndef main(", f"@move({opts})\ndef main(")
     try:
@@ -336,8 +369,11 @@ def run(ctx):
                 continue
             for a, got, want in zip([(2, 0, True), (1, 0, False), (0, 1, True)], outs, ref[0]):
                 if got != want:
+                    k = None
+                    if i == F24_TEMPLATE and a[2] is False and "vac=" in got and "vac=" not in want:
+                        k = "F24-view-equals-filled-view"
                     ctx.fail(dict(case, args=list(a)), f"filled-grid program: events on route [{route_name(route)}] differ from the "
-                                                       f"unfolded run-time-spec route: got={got[:300]} want={want[:300]}")
+                                                       f"unfolded run-time-spec route: got={got[:300]} want={want[:300]}", key=k)
     for key in list(progs)[:2]:
         p = progs[key]
         ctx.sample({"stream": p["stream"], "source": p["src"][len(L.HDR):][:900], "args": [list(a) for a in p["args"]],
